@@ -19,7 +19,7 @@ def region_airspeed_early_none(head, st, mid, s1, f1, s2, f2, tail, parity, case
     return (st == 3 or st == 4) and (f1 == 0 or f2 == 0)
 
 
-@harness(("C09", "C14", "C17"),
+@harness(("C09", "C14"),
          inputs={"head": BinStr(32), "st": Choice(1, 2, 3, 4), "mid": BinStr(5), "s1": Choice(0, 1), "f1": IntRange(0, 1023),
                  "s2": Choice(0, 1), "f2": IntRange(0, 1023), "tail": BinStr(21), "parity": BinStr(24), "case": BinStr(28),
                  "source": Choice(False, True)},
@@ -37,7 +37,7 @@ def airborne_velocity_body(head, st, mid, s1, f1, s2, f2, tail, parity, case, so
         "airborne_velocity == DO-260B TC19 quantities for subtypes 1-4"
 
 
-@harness(("C09", "C14", "C17"), inputs={"msg": HexStr(28), "source": Choice(False, True)},
+@harness(("C09", "C14"), inputs={"msg": HexStr(28), "source": Choice(False, True)},
          functions=[D + "bds09.airborne_velocity"], body_of=[D + "bds09.airborne_velocity"])
 def airborne_velocity_rejects(msg, source):
     assume(F.tc_of(F.hexbits(msg)) != 19)
@@ -55,14 +55,14 @@ def altitude_diff_body(msg):
         "altitude_diff == +-(N-1)*25 ft, None for N=0; RuntimeError for other type codes"
 
 
-@harness(("C09", "C14", "C17"), inputs={"msg": HexStr(28), "source": Choice(False, True)},
+@harness(("C09", "C14"), inputs={"msg": HexStr(28), "source": Choice(False, True)},
          functions=[D + "bds06.surface_velocity"], body_of=[D + "bds06.surface_velocity"])
 def surface_velocity_body(msg, source):
     assert outcome_close(outcome(B06.surface_velocity, msg, source), outcome(adsb_spec.surface_velocity, msg, source)), \
         "surface_velocity == movement table (all 128 codes), track N*360/128 iff status; RuntimeError outside TC5-8"
 
 
-@harness(("C09", "C14", "C17"), inputs={"msg": HexStr(28), "source": Choice(False, True)},
+@harness(("C09", "C14"), inputs={"msg": HexStr(28), "source": Choice(False, True)},
          functions=[A + "velocity"], body_of=[A + "velocity"],
          overrides={D + "bds09.airborne_velocity": adsb_spec.airborne_velocity_opaque,
                     D + "bds06.surface_velocity": adsb_spec.surface_velocity_opaque})
